@@ -135,6 +135,30 @@ fn consistent(l: &Location, text: &str) -> Result<(), String> {
     Ok(())
 }
 
+/// per pre-order index: is the node strictly inside a mapping key that is itself a collection?
+fn inside_composite_key(n: &Node) -> Vec<bool> {
+    fn walk(n: &Node, inside: bool, out: &mut Vec<bool>) {
+        out.push(inside);
+        match &n.kind {
+            Kind::Seq(v) => v.iter().for_each(|c| walk(c, inside, out)),
+            Kind::Map(es) => {
+                for (k, x) in es {
+                    // the key node itself keeps the flag of its parent; its descendants are inside a composite key
+                    out.push(inside);
+                    for c in k.children() {
+                        walk(c, true, out);
+                    }
+                    walk(x, inside, out);
+                }
+            }
+            _ => {}
+        }
+    }
+    let mut out = Vec::new();
+    walk(n, false, &mut out);
+    out
+}
+
 pub struct C16 {
     pub layouts: Vec<Layout>,
 }
@@ -313,7 +337,9 @@ impl Prop for C16 {
                             let def = anchors[name];
                             let defpos = r.pos_of(r.nodes[def].content);
                             if !at(&s.referenced, content) {
-                                v.fail("alias_use_site", format!("{:?}: alias {} used at {}:{} but referenced={:?}", text, n.show(), content.line, content.col, coords(&s.referenced)));
+                                // an alias nested inside a composite key is a separate (recorded) class
+                                let clause = if inside_composite_key(&tree).get(i).copied().unwrap_or(false) { "alias_use_site_inside_composite_key" } else { "alias_use_site" };
+                                v.fail(clause, format!("{:?}: alias {} used at {}:{} but referenced={:?}", text, n.show(), content.line, content.col, coords(&s.referenced)));
                                 return v;
                             }
                             if !at(&s.defined, defpos) {
@@ -716,6 +742,33 @@ pub fn run(ctx: &Ctx) -> i32 {
         acc = acc.merge(crate::props::c02::run_chunks(&by[k], &per_tree));
     }
     acc = acc.merge(g.for_each_next(&by, Acc::default, |a, t| per_tree(a, t), Acc::merge));
+    // anchor / alias placements one node deeper: every shape over {a, &? a, *?} with every labelling (an alias in every
+    // position, mapping keys included), under two layouts
+    {
+        let sg = crate::props::c02::shape_generator();
+        let sfull = ctx.tier.pick(4, 5);
+        let sby = sg.build(sfull);
+        let per_shape = |acc: &mut Acc, shape: Node| {
+            crate::props::c02::labellings(&shape, &mut |t| {
+                if !t.has_alias() {
+                    return;
+                }
+                acc.class("canonical_anchor_trees", 1);
+                for layout in [0u8, 13] {
+                    for flow in [false, true] {
+                        if flow && !t.is_collection() {
+                            continue;
+                        }
+                        process_case(&p, acc, &Case { tree: t.clone(), layout, flow });
+                    }
+                }
+            });
+        };
+        for k in 1..=sfull {
+            acc = acc.merge(crate::props::c02::run_chunks(&sby[k], &per_shape));
+        }
+        acc = acc.merge(sg.for_each_next(&sby, Acc::default, |a, t| per_shape(a, t), Acc::merge));
+    }
     alias_error_family(&mut acc, &lays);
     acc.samples.truncate(0);
     let sample = Node::map(vec![(Node::plain("é"), Node::seq(vec![Node::scalar("q\"é", Style::Double).anchored("ä"), Node::alias("ä")]))]);
@@ -724,7 +777,7 @@ pub fn run(ctx: &Ctx) -> i32 {
         level: "model_checking",
         rule: "every tree up to the node bound over 10 leaf forms (plain / multi-byte / quoted / literal / anchored / alias) x layouts (LF|CRLF|CR x indent 1..3 x comments x wide spacing) x block|flow; every node read through Spanned; every value leaf in turn replaced by a non-integer against a typed target; hand-built alias-error and merge families under every layout; non-trivial = multi-byte text or a non-LF break precedes nodes".into(),
         exhaustive: true,
-        bounds: json!({"max_nodes": full + 1, "layouts_used": quick_layouts.len(), "layouts_total": lays.len()}),
+        bounds: json!({"max_nodes": full + 1, "canonical_anchor_pass_max_nodes": ctx.tier.pick(5, 6), "layouts_used": quick_layouts.len(), "layouts_total": lays.len()}),
         assumptions: vec![
             "the position of a node is where its content token starts (after anchor / tag properties), as in the generator's position table".into(),
             "line/column recomputed with the parser's break set {LF, CRLF, CR}".into(),
